@@ -677,12 +677,40 @@ func checkSymmetricGuards(p *Prog, r *Report, rule string, fn *ssa.Function, a, 
 	roots := map[ssa.Value]string{a: "A", b: "B"}
 	seen := map[string]map[string]bool{} // test -> roots
 	pos := map[string]token.Pos{}
+	// the tests of a branch: its condition, and — when `a && b` was compiled to a boolean phi (a case of
+	// a tagless switch, a condition bound to a local) — the operands that phi merges
+	var operands func(v ssa.Value, d int) []ssa.Value
+	operands = func(v ssa.Value, d int) []ssa.Value {
+		inner, _ := stripNot(v)
+		ph, isPhi := inner.(*ssa.Phi)
+		if !isPhi || d > 3 {
+			return []ssa.Value{inner}
+		}
+		var out []ssa.Value
+		for _, e := range ph.Edges {
+			if _, isC := e.(*ssa.Const); isC {
+				continue
+			}
+			out = append(out, operands(e, d+1)...)
+		}
+		return out
+	}
+	type condAt struct {
+		v   ssa.Value
+		pos token.Pos
+	}
+	var conds []condAt
 	for _, blk := range fn.Blocks {
 		ifi := blockIf(blk)
 		if ifi == nil {
 			continue
 		}
-		inner, _ := stripNot(ifi.Cond)
+		for _, v := range operands(ifi.Cond, 0) {
+			conds = append(conds, condAt{v, ifi.Pos()})
+		}
+	}
+	for _, ca := range conds {
+		inner := ca.v
 		var test, root string
 		switch x := inner.(type) {
 		case *ssa.BinOp:
@@ -731,7 +759,7 @@ func checkSymmetricGuards(p *Prog, r *Report, rule string, fn *ssa.Function, a, 
 			seen[test] = map[string]bool{}
 		}
 		seen[test][root] = true
-		pos[test] = ifi.Pos()
+		pos[test] = ca.pos
 	}
 	var tests []string
 	for t := range seen {
